@@ -15,7 +15,13 @@ func IndexToTime(index int64, tf time.Duration, year int16) time.Time {
 		1, 0, 0, 0, 0,
 		utils.InstanceConfig.Timezone)
 	if tf == utils.Day {
-		return t0.AddDate(0, 0, int(index))
+		t := t0.AddDate(0, 0, int(index))
+		// Where daylight saving time starts at midnight that instant does not exist and the time
+		// package answers with 23:00 of the previous day: move on to the first instant of the day.
+		for i := 0; i < 4 && t.YearDay()-1 < int(index) && t.Year() == int(year); i++ {
+			t = t.Add(30 * time.Minute)
+		}
+		return t
 	}
 	return t0.Add(tf * time.Duration(index-1))
 }
